@@ -36,11 +36,13 @@ TAMPERS_OUT = [
     "swap-change-spk:p2pkh", "swap-change-spk:p2wpkh", "swap-change-spk:p2sh", "swap-change-spk:p2wsh", "swap-change-spk:p2tr",
     "swap-change-spk-redeem-only-metadata", "foreign-wallet-change", "single-cosigner-change", "duplicated-cosigner-change",
     "change-wrong-path", "change-foreign-fingerprint", "change-quorum-lowered", "second-change-output", "spend-output-dressed-as-change",
+    "change-one-wallet-key-rest-foreign",
 ]
 TAMPERS_IN = [
     "input-prev-tx-altered", "input-witness-utxo-amount-with-sig", "input-foreign-script", "input-derivation-wrong-path",
     "input-derivation-foreign-fingerprint", "global-xpub-replaced", "input-witness-utxo-amount-no-sig(not demanded)",
     "input-legacy-p2sh-amount-via-witness-utxo", "input-foreign-redeem-script-with-witness-utxo",
+    "later-input-foreign-key-under-known-path", "in-place-prev-tx-amount",
 ]
 
 GATES = {
@@ -225,7 +227,7 @@ def out_meta(truth, secs_by_who_path, script, kind):
     return m
 
 
-def tampers(ctx, rng, raw, signed_raw, wallet, truth, change_pos):
+def tampers(ctx, rng, raw, signed_raw, wallet, truth, change_pos, paths=None):
     """Yields (class, expectation, bytes)."""
     maps = rp.decode(raw)
     model = maps["tx"]
@@ -275,6 +277,17 @@ def tampers(ctx, rng, raw, signed_raw, wallet, truth, change_pos):
             mm = with_tx(maps, mo)
             mm["outs"][change_pos] = out_meta(truth, dup, script, kind)
             yield "duplicated-cosigner-change", "raise-or-not-change", rp.encode(mm)
+            # script and scriptPubKey swapped consistently for {one genuine wallet key + foreign keys}; the honest
+            # derivations of ALL cosigners are kept as metadata
+            honest_ent = [(k[1:], v) for k, v in maps["outs"][change_pos] if k[:1] == b"\x02"]
+            keep = rng.choice(honest_ent)[0]
+            mixed = [keep] + [ec.sec(ec.mul(rng.randrange(1, ec.N))) for _ in range(truth.n - 1)]
+            script = truth.script(mixed)
+            mo = copy_model(model)
+            mo["outs"][change_pos]["script"] = truth.commit(script)
+            mm = with_tx(maps, mo)
+            mm["outs"][change_pos] = out_meta(truth, honest_ent, script, kind)
+            yield "change-one-wallet-key-rest-foreign", "raise-or-not-change", rp.encode(mm)
         # wrong path / foreign fingerprint in one change derivation
         for name in ("change-wrong-path", "change-foreign-fingerprint"):
             mm = with_tx(maps, model)
@@ -380,6 +393,27 @@ def tampers(ctx, rng, raw, signed_raw, wallet, truth, change_pos):
         fake = k[:1] + k[1:14] + ac + ec.sec(ec.mul(ak))
         mm["global"][j] = (fake, v)
         yield "global-xpub-replaced", "must-raise", rp.encode(mm)
+    # a later input rebuilt around a FOREIGN key that is announced under a cosigner's fingerprint and exactly the
+    # path an earlier input already used (matching UTXO and script, so only the key derivation gives it away)
+    if len(model["ins"]) >= 2 and paths:
+        k_bad = 1 + rng.randrange(len(model["ins"]) - 1)
+        branch, idx0 = paths[0]
+        honest = truth.child_keys(branch, idx0)
+        who = rng.randrange(truth.n)
+        foreign_key = ec.sec(ec.mul(rng.randrange(1, ec.N)))
+        keys = [foreign_key if w == who else honest[w] for w in range(truth.n)]
+        script = truth.script(keys)
+        utxo = {"amount": rng.randrange(200_000, 900_000), "script": truth.commit(script)}
+        prev = {"version": 1, "ins": [{"txid": rng.randbytes(32), "vout": 0, "script": b"", "sequence": 0xFFFFFFFF, "witness": []}],
+                "outs": [utxo], "locktime": 0, "segwit": False}
+        mo = copy_model(model)
+        mo["ins"][k_bad]["txid"] = tc.txid(prev)
+        mo["ins"][k_bad]["vout"] = 0
+        mm = with_tx(maps, mo)
+        entries = [((b"\x00", tc.encode(prev)) if kind == "p2sh" else (b"\x01", tc.txout_bytes(utxo))), ((b"\x04" if kind == "p2sh" else b"\x05"), script)]
+        entries += sorted((b"\x06" + keys[w], truth.deriv_value(w, branch, idx0)) for w in range(truth.n))
+        mm["ins"][k_bad] = entries
+        yield "later-input-foreign-key-under-known-path", "must-raise", rp.encode(mm)
 
 
 # ---- one scenario -----------------------------------------------------------------------------------------------
@@ -431,7 +465,9 @@ def one_scenario(ctx, rng, kind, m, n, network, n_in, layout, quick):
     if kind == "p2wsh":
         os_ = outcome(lambda: _signed(raw, wallet))
         signed_raw = os_[1] if os_[0] == "ok" else None
-    for cls, exp, tb in tampers(ctx, rng, raw, signed_raw, wallet, truth, change_pos):
+    if kind == "p2sh":
+        in_place_history(ctx, raw, wallet, truth)
+    for cls, exp, tb in tampers(ctx, rng, raw, signed_raw, wallet, truth, change_pos, paths=[f[3] for f in sc.funding]):
         if ctx.out_of_time():
             return
         ctx.count("tamper:" + cls)
@@ -445,6 +481,40 @@ def one_scenario(ctx, rng, kind, m, n, network, n_in, layout, quick):
             bytes_ = rp.encode(mm)
         od = lib_describe(bytes_, network, explicit if mode == "explicit" else None)
         judge(ctx, cls, exp, bytes_, wallet, truth, od, mode)
+
+
+def in_place_history(ctx, raw, wallet, truth):
+    """History on ONE parsed PSBT object: summarise it, change the attached previous transaction's amount in place,
+    summarise again.  The second call sees a PSBT whose UTXO no longer matches the transaction and must reject it
+    (a validation result remembered from the first call must not be reused)."""
+    from props.psbtlib import reparse
+
+    def go():
+        p = reparse(raw, wallet.network)
+        d1 = p.describe_basic_multisig()
+        pin = p.psbt_ins[0]
+        out = pin.prev_tx.tx_outs[pin.tx_in.prev_index]
+        out.amount += 123_456
+        try:
+            d2 = p.describe_basic_multisig()
+        except Exception as e:  # noqa: BLE001
+            return d1, ("exc", type(e).__name__)
+        return d1, ("ok", d2)
+
+    o = outcome(go)
+    ctx.count("tamper:in-place-prev-tx-amount")
+    ctx.monitor("describe-in-place-history")
+    ctx.case(("in-place", raw))
+    case = {"op": "describe", "raw": raw, "network": wallet.network, "cls": "in-place-prev-tx-amount"}
+    if o[0] == "exc":
+        ctx.count("observed:in-place-history-first-describe-raised")
+        return
+    d1, second = o[1]
+    if second[0] == "ok":
+        ctx.violation("tampered-psbt-summarised:in-place-prev-tx-amount",
+                      f"after editing the attached previous tx in place the same object was summarised again (fee {d1['tx_fee_sats']} -> {second[1]['tx_fee_sats']})", case)
+    else:
+        ctx.count("tamper-outcome:raised")
 
 
 def _signed(raw, wallet):
@@ -479,7 +549,7 @@ def run_shard(desc, ctx):
         if quick and n == 4:
             kind, m, n = PLAN[idx % 6]
         layout = LAYOUTS[(idx + rnd) % len(LAYOUTS)]
-        one_scenario(ctx, rng, kind, m, n, "mainnet" if (idx + rnd) % 2 else "testnet", 1 if quick else rng.choice([1, 2, 3]), layout, quick)
+        one_scenario(ctx, rng, kind, m, n, "mainnet" if (idx + rnd) % 2 else "testnet", (2 if idx % 4 == 0 else 1) if quick else rng.choice([1, 2, 3]), layout, quick)
         if ctx.out_of_time():
             return
 
